@@ -314,7 +314,8 @@ def normalise_observed(entries):
         kind = e[0]
         if kind == 'cond':
             _k, where, name, data, val = e
-            if out and out[-1][0] == 'conds' and out[-1][1] == name:
+            if (out and out[-1][0] == 'conds' and out[-1][1] == name
+                    and where not in [k for k, _v in out[-1][2]]):
                 out[-1][2].append([where, val])
             else:
                 out.append(['conds', name, [[where, val]], canon(data)])
